@@ -36,11 +36,18 @@ def main():
     seed, name, prop = sys.argv[1], sys.argv[2], sys.argv[3]
     checks = sys.argv[4:]
     seed = os.path.abspath(seed)
+    # the demos are written to be run from the repository root at seed/<mutantK>/demo
+    sub = os.path.basename(seed.rstrip("/"))
+    if os.path.exists(os.path.join(seed, "meta.json")):
+        try:
+            sub = json.load(open(os.path.join(seed, "meta.json"))).get("demo_subdir", sub)
+        except Exception:
+            pass
     scr = tempfile.mkdtemp(prefix="nvkeep.", dir="/var/tmp")
     # work on a private copy of the seed (the seed may be /verif/seeded/<name> itself)
     shutil.copytree(seed, os.path.join(scr, "seedcopy"))
     seed = os.path.join(scr, "seedcopy")
-    meta = {"name": name, "breaks_property": prop, "ran": []}
+    meta = {"name": name, "breaks_property": prop, "ran": [], "demo_subdir": None}
     try:
         src = os.path.join(scr, "repo")
         os.makedirs(src)
@@ -48,10 +55,10 @@ def main():
         sh("git init -q . && git add -A >/dev/null 2>&1 && git -c user.email=a@b -c user.name=x commit -qm base", cwd=src)
         # without the patch
         ok0, t0 = build_and_test(src)
-        shutil.copytree(os.path.join(seed, "demo"), os.path.join(src, "seed", "m", "demo"))
+        shutil.copytree(os.path.join(seed, "demo"), os.path.join(src, "seed", sub, "demo"))
         denv = dict(os.environ, NEVER=os.path.join(src, "_build", "never"), NEVER_BIN=os.path.join(src, "_build", "never"),
                     NEVER_PATH="%s/sample/lib:%s/sample" % (src, src))
-        rc_without, out_without = sh("chmod +x seed/m/demo/run.sh; ./seed/m/demo/run.sh", cwd=src, env=denv, timeout=600)
+        rc_without, out_without = sh("chmod +x seed/%s/demo/run.sh; ./seed/%s/demo/run.sh" % (sub, sub), cwd=src, env=denv, timeout=600)
         # with the patch
         rc, out = sh("git apply --whitespace=nowarn %s" % os.path.join(seed, "patch.diff"), cwd=src)
         if rc != 0:
@@ -59,7 +66,7 @@ def main():
             meta["applies"] = False
             return 2
         ok1, t1 = build_and_test(src)
-        rc_with, out_with = sh("chmod +x seed/m/demo/run.sh; ./seed/m/demo/run.sh", cwd=src, env=denv, timeout=600)
+        rc_with, out_with = sh("chmod +x seed/%s/demo/run.sh; ./seed/%s/demo/run.sh" % (sub, sub), cwd=src, env=denv, timeout=600)
         meta.update({"applies": True, "tests_pass_without": ok0, "tests_pass_with": ok1,
                      "demo_without": {"rc": rc_without, "tail": out_without[-300:]},
                      "demo_with": {"rc": rc_with, "tail": out_with[-300:]}})
@@ -81,7 +88,8 @@ def main():
             print("check", cid, "exit", rc, "caught" if caught else "MISSED", "(concrete input)" if concrete else "")
         readme = open(os.path.join(seed, "README.md"), errors="replace").read() if os.path.exists(os.path.join(seed, "README.md")) else ""
         m = re.search(r"(?is)(needs?[^\n]*manifest[^\n]*\n(?:.*\n){0,6})", readme)
-        meta["demo_how"] = "from a checkout of never-lang/never with the patch applied and built into _build: place demo/ at seed/m/demo and run `sh seed/m/demo/run.sh` (or set NEVER / NEVER_BIN to the built binary)"
+        meta["demo_subdir"] = sub
+        meta["demo_how"] = "from a checkout of never-lang/never with the patch applied and built into _build: place demo/ at seed/%s/demo and run seed/%s/demo/run.sh from the repository root (or set NEVER / NEVER_BIN to the built binary)" % (sub, sub)
         meta["needs_to_manifest"] = (m.group(1).strip()[:800] if m else readme[:800])
         if confirmed:
             dst = os.path.join(VERIF, "seeded", name)
